@@ -5,7 +5,7 @@
    when that does not catch it, every other check; writes /verif/seeded/<Cxx>-F07<i>/"""
 import sys, os, json, subprocess, shutil, re
 reg, i = sys.argv[1], sys.argv[2]
-src = {"F": "/tmp/mut/o5-%s/%s", "G": "/tmp/mut/o6-%s/%s", "H": "/tmp/mut/o7-%s/%s"}[reg[0]] % (reg, i)
+src = {"F": "/tmp/mut/o5-%s/%s", "G": "/tmp/mut/o6-%s/%s", "H": "/tmp/mut/o7-%s/%s", "K": "/tmp/mut/o8-%s/%s"}[reg[0]] % (reg, i)
 meta_txt = open(os.path.join(src, "meta.txt")).read()
 m = re.search(r"PROPERTY:\s*(C\d\d)", meta_txt)
 pid = m.group(1) if m else "C01"
@@ -30,7 +30,7 @@ for f in ("patch.diff", "demo.rs"):
 ok_head = bool(re.search(r"demo@HEAD: test result: ok", sv))
 ok_suite = bool(re.search(r"suite@patch: test result: FAILED\. 142 passed; 1 failed", sv))
 ok_demo = bool(re.search(r"demo@patch: test result: FAILED", sv))
-meta = {"property": pid, "variant": "%s-%s" % (reg, i), "round": {"F": 5, "G": 6, "H": 7}[reg[0]], "what_and_trigger": meta_txt.strip(),
+meta = {"property": pid, "variant": "%s-%s" % (reg, i), "round": {"F": 5, "G": 6, "H": 7, "K": 8}[reg[0]], "what_and_trigger": meta_txt.strip(),
         "confirmed": {"demo_passes_on_HEAD": ok_head, "existing_suite_unchanged_142_1": ok_suite, "demo_fails_with_patch": ok_demo},
         "ran": ["tools/seedverify.sh %s %s" % (src, slot), "tools/muttest.sh %s/patch.diff %s <checks>" % (src, slot)],
         "checks": results, "caught_by": sorted(k for k, v in results.items() if v["rc"] == 1)}
